@@ -71,8 +71,16 @@ proof fn lemma_char_len_bounds(ws: Seq<WordShape>, n: int)
 #[verifier::external_body]
 fn text_match(rtext: &TextRef, qtext: &TextRef) -> (ret: (Vec<WordMatch>, Vec<WordMatch>))
     requires text_wf(rtext), text_wf(qtext), text_small(rtext), text_small(qtext),
-    ensures tm_post(rtext, qtext, ret), tm_some(rtext, qtext, ret),
+    ensures tm_post(rtext, qtext, ret), tm_some(rtext, qtext, ret), tm_empty(qtext, ret),
 { unimplemented!() }
+// C08: slot k of the score vector holds component k, in the documented priority order
+pub open spec fn slots_ok(h: Hit) -> bool {
+    let ms = h.rmatches@; let n = ms.len() as int;
+    &&& h.scores.0[0] == ref_chars(ms, n) && h.scores.0[1] == ref_words(ms, n) && h.scores.0[2] == -ref_tails(ms, n)
+    &&& h.scores.0[3] == -ref_trans(ms, n - 1) && h.scores.0[4] == (if n == 0 { 1int } else if ms.last().fin { 1int } else { 0int })
+    &&& h.scores.0[5] == -ref_min_offset(ms, n) && h.scores.0[6] == h.rating && h.scores.0[7] == -(h.title.words@.len() as int)
+    &&& h.scores.0[8] == -ref_char_len(h.title.words@, h.title.words@.len() as int)
+}
 // @item rust/core/src/search/score.rs :: fn score_chars_up
 pub fn score_chars_up(hit: &Hit) -> (ret: isize)
     // C01: the character score is signed; no provenance clause is needed of the matches (split parts do not have one)
@@ -245,6 +253,9 @@ pub fn score(query: &TextRef, hit: &mut Hit)
         &&& matches_for_text(ms, &h.title) && matches_ok(ms) && matches_for_text(h.qmatches@, query) && matches_ok(h.qmatches@)
         // C03 / C13 (TM-some): a title word that the first query word is a prefix of (or equal to) gives the hit a match
         &&& tm_some(&h.title, query, (h.rmatches, h.qmatches)) // [C03 C13]
+        // C12 / C09: a query without words leaves the hit without matches; the slots as one predicate (for Store::search)
+        &&& (query.words@.len() == 0 ==> ms.len() == 0) // [C12 C09]
+        &&& slots_ok(h) // [C08 C12 C07]
         &&& h.scores.0[0] == ref_chars(ms, n) && h.scores.0[1] == ref_words(ms, n) && h.scores.0[2] == -ref_tails(ms, n)
         &&& h.scores.0[3] == -ref_trans(ms, n - 1) && h.scores.0[4] == (if n == 0 { 1int } else if ms.last().fin { 1int } else { 0int })
         &&& h.scores.0[5] == -ref_min_offset(ms, n) && h.scores.0[6] == h.rating && h.scores.0[7] == -(h.title.words@.len() as int)
